@@ -238,7 +238,7 @@ def run(ctx):
                    dict(cls="DilResNet", D=2, depth=1, input=S1[0], output=S1[1], use_group_norm=False, activation="relu", use_bias="auto")]
     jobs += [(ctx.repo, s) for s in mspecs]
     by = {}
-    for job, r in zip(jobs, ctx.pmap(taint_worker, jobs, chunk=1)):
+    for job, r in ctx.pairs(taint_worker, jobs, chunk=1):
         cfg = r["cfg"]
         ev.obligation("taint", not r["problems"], tuple(str(v) for v in sorted(cfg.items())), sample={k: v for k, v in cfg.items()} if ev.obligations % 6 == 0 else None)
         for kind, what, site in r["problems"]:
